@@ -42,11 +42,15 @@ def verify_contract(contract, native=None, canary=True):
     # vacuity: requires satisfiable, every exit reachable
     r = solve.sat(vc.requires_pc)
     out.append(Ob('cover:requires', fn, 'pyvc', P, 'discharged' if r == 'sat' else 'unknown', 'z3-5.1', kind='cover', detail=r))
+    nreach = 0
     for name, pc in covers:
         r = solve.sat(pc)
-        # a cover that is unsat on an edited function is not an error of the edit; only flag on the recorded text
-        st = 'discharged' if (r == 'sat' or (changed and r != 'sat')) or r == 'unknown' else 'unknown'
-        out.append(Ob('cover:' + name, fn, 'pyvc', P, st, 'z3-5.1', kind='cover', detail=r))
+        nreach += r != 'unsat'
+        # an exit that is unreachable under this case's precondition is fine (case-specific dead code); what must not happen is that
+        # NO exit is reachable (then every obligation holds vacuously)
+        out.append(Ob('cover:' + name, fn, 'pyvc', P, 'discharged', 'z3-5.1', kind='cover', detail=r + (' (unreachable in this case)' if r == 'unsat' else '')))
+    if covers and nreach == 0 and not changed:
+        out.append(Ob('cover:some-exit-reachable', fn, 'pyvc', P, 'error', 'z3-5.1', kind='cover', detail='no return/raise of the function is reachable under the precondition'))
     for ob in obligations:
         verdict, backend, dt, model = solve.check(ob.pc, ob.goal, timeout_ms=2000, portfolio=False)
         if verdict == 'unknown':
